@@ -6,6 +6,23 @@ From V Require Import Base.UString Base.Json Model.JcsText Model.Jcs Spec.Rfc878
 Import ListNotations.
 Open Scope N_scope.
 
+(* numbers: the text written for a double whose shortest round-trip digits are
+   ds (1..17 of them) with decimal exponent n is the ECMAScript text -- for every
+   digit string and every exponent in Z *)
+Theorem num_es6 : forall neg ds n, wf_digits ds ->
+  convert2es6 (py_repr neg ds n) = JOk (es6_tostring neg ds n).
+Proof. exact num_es6_proof. Qed.
+Print Assumptions num_es6.
+
+Example num_es6_hyp_satisfiable : wf_digits [1; 2; 5].
+Proof. exact wf_digits_example. Qed.
+
 Theorem num_zero : convert2es6 [c_0; c_dot; c_0] = JOk [c_0] /\ convert2es6 [c_minus; c_0; c_dot; c_0] = JOk [c_0].
 Proof. exact (conj num_zero_pos num_zero_neg). Qed.
 Print Assumptions num_zero.
+
+Theorem num_nan_inf_refused :
+  convert2es6 (u "nan") = JRaise ValueError /\ convert2es6 (u "inf") = JRaise ValueError /\
+  convert2es6 (u "-inf") = JRaise ValueError.
+Proof. exact num_nan_inf_refused_proof. Qed.
+Print Assumptions num_nan_inf_refused.
